@@ -138,6 +138,8 @@ pub enum Expr {
     TryInto(Ty, Ty, Box<Expr>),
     Tuple(Vec<Expr>),
     TupleField(Box<Expr>, usize, usize), // (e, index, arity) printed via destructuring block
+    /// `{ let (t0_, t1_, ..) = e; (t<k0>_, t<k1>_, ..) }`: one destructuring, members permuted / duplicated
+    Permute(Box<Expr>, usize, Vec<usize>),
     StructLit(usize, Vec<Expr>),
     Field(Box<Expr>, usize, usize), // (e, struct id, field index)
     EnumLit(usize, usize, Option<Box<Expr>>),
@@ -300,7 +302,7 @@ impl Pr<'_> {
         let s = self.expr_raw(e);
         match e {
             Expr::If(..) | Expr::MatchEnum(..) | Expr::MatchOpt(..) | Expr::MatchNum(..) | Expr::MatchBool(..)
-            | Expr::Block(..) | Expr::Loop(..) | Expr::StructLit(..) | Expr::TupleField(..) | Expr::ArrGet(..) => format!("({s})"),
+            | Expr::Block(..) | Expr::Loop(..) | Expr::StructLit(..) | Expr::TupleField(..) | Expr::Permute(..) | Expr::ArrGet(..) => format!("({s})"),
             _ => s,
         }
     }
@@ -338,6 +340,13 @@ impl Pr<'_> {
                     (0..*n).map(|k| if k == *i { "t_".to_string() } else { "_".to_string() }).collect();
                 let pat = if *n == 1 { format!("({},)", pat[0]) } else { format!("({})", pat.join(", ")) };
                 format!("{{ let {pat} = {}; t_ }}", self.expr(a))
+            }
+            Expr::Permute(a, n, picks) => {
+                let pat: Vec<String> = (0..*n).map(|k| format!("t{k}_")).collect();
+                let pat = if *n == 1 { format!("({},)", pat[0]) } else { format!("({})", pat.join(", ")) };
+                let out: Vec<String> = picks.iter().map(|k| format!("t{k}_")).collect();
+                let out = if out.len() == 1 { format!("({},)", out[0]) } else { format!("({})", out.join(", ")) };
+                format!("{{ let {pat} = {}; {out} }}", self.expr(a))
             }
             Expr::StructLit(s, es) => {
                 let parts: Vec<String> =
@@ -708,6 +717,8 @@ pub struct Gen<'a> {
     cur_ret: Ty,
     in_loop: bool,
     pub stats: GenStats,
+    /// Shuffle functions generated so far: (index, parameter type, returns Option).
+    shuffles: Vec<(usize, Ty, bool)>,
 }
 
 #[derive(Default, Clone, Debug)]
@@ -723,6 +734,7 @@ pub struct GenStats {
     pub ifs: u32,
     pub recursion: u32,
     pub early_return: u32,
+    pub shuffle_functions: u32,
 }
 
 const INT_TYS: &[Ty] = &[
@@ -1492,6 +1504,34 @@ impl<'a> Gen<'a> {
                 }
             }
         }
+        // Shuffle functions: the body only rebuilds the (single, composite) parameter from its own
+        // members, permuted or duplicated - the shape return / struct optimisations look for.
+        if !is_entry && !recursive && self.ch.chance(1, 6) {
+            let t = self.scalar_ty();
+            let x = self.fresh("x");
+            let same: Vec<usize> = (0..self.prog.structs.len())
+                .filter(|s| {
+                    let f = &self.prog.structs[*s];
+                    f.len() >= 2 && f.iter().all(|u| *u == f[0])
+                })
+                .collect();
+            let (pty, tail) = if !same.is_empty() && self.ch.bool() {
+                let sid = same[self.ch.below(same.len())];
+                let n = self.prog.structs[sid].len();
+                let picks: Vec<usize> = (0..n).map(|i| if self.ch.chance(1, 4) { self.ch.below(n) } else { (i + 1) % n }).collect();
+                let fields = picks.iter().map(|k| Expr::Field(Box::new(Expr::Var(x.clone())), sid, *k)).collect();
+                (Ty::Struct(sid), Expr::StructLit(sid, fields))
+            } else {
+                let n = 2 + self.ch.below(2);
+                let picks: Vec<usize> = (0..n).map(|i| if self.ch.chance(1, 4) { self.ch.below(n) } else { (i + 1) % n }).collect();
+                (Ty::Tuple(vec![t.clone(); n]), Expr::Permute(Box::new(Expr::Var(x.clone())), n, picks))
+            };
+            self.stats.shuffle_functions += 1;
+            let tail = if self.ch.chance(1, 3) { Expr::Some_(Box::new(tail)) } else { tail };
+            let ret = if matches!(tail, Expr::Some_(_)) { Ty::Opt(Box::new(pty.clone())) } else { pty.clone() };
+            self.shuffles.push((idx, pty.clone(), matches!(ret, Ty::Opt(_))));
+            return Func { params: vec![Param::Val(x, pty)], ret, body: Block { stmts: vec![], tail }, inline: self.ch.below(3) as u8, recursive: false };
+        }
         let ret = if is_entry { self.any_ty(2) } else if self.ch.chance(1, 3) { self.any_ty(2) } else { self.scalar_ty() };
         // The entry returns (value, digest); early returns inside it must produce that type.
         self.cur_ret = if is_entry { Ty::Tuple(vec![ret.clone(), Ty::Felt]) } else { ret.clone() };
@@ -1588,6 +1628,28 @@ impl<'a> Gen<'a> {
                     ));
                     e2.vars.push(VarInfo { name, ty: Ty::Felt, mutable: false });
                 }
+                // Every shuffle function is called once and each member of its result becomes a
+                // scalar variable (so the digest below, whose weights differ per variable, sees
+                // the order of the members).
+                for (fidx, pty, opt) in self.shuffles.clone() {
+                    let arg = self.expr(&e2, &pty, 2);
+                    let call = Expr::Call(fidx, vec![Arg::Val(arg)]);
+                    let call = if opt { Expr::Unwrap(Box::new(call)) } else { call };
+                    let name = self.fresh("sh");
+                    stmts.push(Stmt::Let(name.clone(), false, pty.clone(), call));
+                    let members: Vec<(Ty, Expr)> = match &pty {
+                        Ty::Tuple(ts) => ts.iter().enumerate().map(|(i, t)| (t.clone(), Expr::TupleField(Box::new(Expr::Var(name.clone())), i, ts.len()))).collect(),
+                        Ty::Struct(sid) => self.prog.structs[*sid].iter().enumerate().map(|(i, t)| (t.clone(), Expr::Field(Box::new(Expr::Var(name.clone())), *sid, i))).collect(),
+                        _ => vec![],
+                    };
+                    for (t, e) in members {
+                        if t.is_scalar() {
+                            let m = self.fresh("shm");
+                            stmts.push(Stmt::Let(m.clone(), false, t.clone(), e));
+                            e2.vars.push(VarInfo { name: m, ty: t, mutable: false });
+                        }
+                    }
+                }
                 // Observability: the entry also returns a felt252 digest of every scalar variable
                 // in scope, so that intermediate computations reach the result.
                 let mut digest = Expr::Lit(Ty::Felt, BigInt::zero());
@@ -1648,6 +1710,7 @@ pub fn generate(ch: &mut Choices) -> (Program, GenStats) {
         cur_ret: Ty::Felt,
         in_loop: false,
         stats: GenStats::default(),
+        shuffles: vec![],
     };
     // Types.
     let ns = g.ch.below(3);
